@@ -39,16 +39,35 @@ pub fn run(kind: &str, c: &Case, outdir: &Path, out: &mut String) {
 // Helper-thread calls must stay blocked until D; that is probed before every later token.
 
 enum Pending {
-    Await(mpsc::Receiver<Vec<u8>>),
+    Await(mpsc::Receiver<Dest>),
     Len(mpsc::Receiver<u64>),
-    Expect(mpsc::Receiver<Vec<u8>>),
+    Expect(mpsc::Receiver<Dest>),
+}
+
+/// The real destination of the staging buffer: a byte vector whose `write` accepts at most `max` bytes per call (a pipe,
+/// a socket, any `Write` is allowed to do that; `usize::MAX` = takes everything, like a `Vec`).
+struct Dest {
+    data: Vec<u8>,
+    max: usize,
+}
+
+impl Write for Dest {
+    fn write(&mut self, b: &[u8]) -> std::io::Result<usize> {
+        let n = b.len().min(self.max);
+        self.data.extend_from_slice(&b[..n]);
+        Ok(n)
+    }
+    fn flush(&mut self) -> std::io::Result<()> {
+        Ok(())
+    }
 }
 
 fn tempbuf(c: &Case, out: &mut String) {
     let m = c.opt_map();
     let inmem = m.get("inmem").map(|x| x == "1").unwrap_or(true);
     let d0 = unhex(m.get("d0").map(|s| s.as_str()).unwrap_or("-"));
-    let (buf, writer) = TempFileBuffer::<Vec<u8>>::new(inmem);
+    let destmax: usize = m.get("destmax").and_then(|v| v.parse().ok()).unwrap_or(usize::MAX);
+    let (buf, writer) = TempFileBuffer::<Dest>::new(inmem);
     let mut buf = Some(buf);
     let mut writer = Some(writer);
     let mut pending: Option<Pending> = None;
@@ -76,7 +95,7 @@ fn tempbuf(c: &Case, out: &mut String) {
                 dropped = true;
             }
             "S" => {
-                buf.as_mut().unwrap().switch(d0.clone());
+                buf.as_mut().unwrap().switch(Dest { data: d0.clone(), max: destmax });
             }
             "R" => {
                 writeln!(out, "RDY {}", buf.as_ref().unwrap().is_real_file_ready() as u8).unwrap();
@@ -112,7 +131,7 @@ fn tempbuf(c: &Case, out: &mut String) {
             "X" => {
                 let b = buf.take().unwrap();
                 let (tx, rx) = mpsc::channel();
-                let mut dest = d0.clone();
+                let mut dest = Dest { data: d0.clone(), max: destmax };
                 std::thread::spawn(move || {
                     let r = std::panic::catch_unwind(std::panic::AssertUnwindSafe(|| {
                         b.expect_closed_write(&mut dest).unwrap();
@@ -138,11 +157,11 @@ fn tempbuf(c: &Case, out: &mut String) {
             let wait = Duration::from_millis(if dropped { 3000 } else { 30 });
             match p {
                 Pending::Await(rx) => match rx.recv_timeout(wait) {
-                    Ok(d) => writeln!(out, "DEST {}", hex(&d)).unwrap(),
+                    Ok(d) => writeln!(out, "DEST {}", hex(&d.data)).unwrap(),
                     Err(_) => writeln!(out, "DEST blocked").unwrap(),
                 },
                 Pending::Expect(rx) => match rx.recv_timeout(wait) {
-                    Ok(d) => writeln!(out, "DEST {}", hex(&d)).unwrap(),
+                    Ok(d) => writeln!(out, "DEST {}", hex(&d.data)).unwrap(),
                     Err(_) => writeln!(out, "DEST blocked").unwrap(),
                 },
                 Pending::Len(rx) => match rx.recv_timeout(wait) {
